@@ -41,6 +41,10 @@ pub struct Fail {
     pub msg: String,
     /// the failed clause is time-bounded (liveness): subject to the re-run rule of DESIGN 2.6
     pub timing: bool,
+    /// a definitive-looking stall observed in a concurrent batch: it counts when it reproduces alone,
+    /// or when at least three distinct cases of the same sub-check show it in one run; a single
+    /// unreproducible occurrence is recorded as inconclusive (DESIGN 2.6)
+    pub stall: bool,
 }
 
 impl Fail {
@@ -49,6 +53,15 @@ impl Fail {
             signature: signature.into(),
             msg: msg.into(),
             timing: false,
+            stall: false,
+        }
+    }
+    pub fn stall(signature: impl Into<String>, msg: impl Into<String>) -> Self {
+        Self {
+            signature: signature.into(),
+            msg: msg.into(),
+            timing: false,
+            stall: true,
         }
     }
     pub fn timing(signature: impl Into<String>, msg: impl Into<String>) -> Self {
@@ -56,6 +69,7 @@ impl Fail {
             signature: signature.into(),
             msg: msg.into(),
             timing: true,
+            stall: false,
         }
     }
 }
@@ -724,9 +738,28 @@ impl Ctx {
             out
         });
         let batch_panics = panics::since(before);
+        let mut suspects: Vec<(Value, Fail)> = Vec::new();
         for (i, (rec, res)) in results.into_iter().enumerate() {
             let v = serde_json::to_value(&values[i]).unwrap_or(Value::Null);
             let res = match res {
+                Err(f) if f.stall && !self.is_known(&f.signature) => {
+                    // reproduce alone (up to 3 runs); otherwise keep it as a suspect
+                    let mut again: Check = Ok(());
+                    for _ in 0..3 {
+                        again = run_alone(&values[i]).1;
+                        if again.is_err() {
+                            break;
+                        }
+                    }
+                    match again {
+                        Err(f2) => Err(f2),
+                        Ok(()) => {
+                            rec.inconclusive_timing();
+                            suspects.push((v.clone(), f));
+                            Ok(())
+                        }
+                    }
+                }
                 Err(f) if f.timing => {
                     let r = judge_alone(&values[i]);
                     if r.is_ok() {
@@ -759,6 +792,24 @@ impl Ctx {
                     self.violation(sub, &v, &f);
                 }
                 return;
+            }
+        }
+        if !suspects.is_empty() {
+            self.add_extra_count("unreproduced_stalls", suspects.len() as u64);
+            if suspects.len() >= 3 {
+                let (v, f) = &suspects[0];
+                let f = Fail::new(
+                    f.signature.clone(),
+                    format!("{} distinct cases of this run stalled in the batch (none reproduced alone); first: {}", suspects.len(), f.msg),
+                );
+                self.violation(sub, v, &f);
+                return;
+            }
+            for (_v, f) in &suspects {
+                eprintln!(
+                    "note: {} {}: one unreproduced stall ({}), counted as inconclusive",
+                    self.prop, sub, f.signature
+                );
             }
         }
         // a panic in some background task that no case attributed to itself
